@@ -12,6 +12,7 @@ import os
 
 from core import coqrun, runner
 from fakes import c10_retry as drv
+from fakes import c10_lock as lk
 
 ID = 'C10'
 PROPERTY_FILE = 'C10/Property.v'
@@ -347,6 +348,128 @@ def radio_histories(maxlen):
                 yield [['connect', first]] + [list(x) for x in rest]
 
 
+# ------------------------------------------------------------------ the send lock (blocking / failing driver, real threads)
+LHEADER = 'From CF Require Import Common.Bytes C10.Model C10.Lock.\nOpen Scope Z_scope.\n'
+
+
+def _lev(e):
+    k = e[0]
+    if k == 'start':
+        a = e[1]
+        if a[0] == 'user':
+            _, rid, hdr, data, exp, tmo = a
+            return 'LStart (AUser %d %d %s %s %d)' % (rid, hdr, coqrun.zlist(data), coqrun.zlist(exp), 200 if tmo is None else tmo)
+        return 'LStart (ATimer %d)' % a[1]
+    if k == 'acquire':
+        return 'LAcquire %d%%nat' % e[1]
+    if k == 'finish':
+        return 'LFinish %d%%nat %s' % (e[1], {'ok': 'Ok', 'driver': 'DriverRaises', 'sentcb': 'SentCbRaises'}[e[2]])
+    return 'LBase (%s)' % _ev(e[1])
+
+
+def lock_term(events):
+    return 'lobs (lrun WithFinally linit [%s])' % '; '.join(_lev(e) for e in events)
+
+
+def lock_impl_obs(res):
+    out = [len(res['out'])]
+    for x in res['out']:
+        out += x
+    return out + [res['holder'], len(res['statuses'])] + res['statuses'] + res['timers']
+
+
+def lock_fixed_scenarios():
+    U = lambda rid, exp=(7,), tmo=100: ['user', rid, 0x90, [rid], list(exp), tmo]    # noqa: E731
+    O = ['base', ['open', True]]
+    out = []
+    for o in ('ok', 'driver', 'sentcb'):
+        # first transmission ends in o; then the retry timer's own transmission ends in o
+        out.append([O, ['start', U(0)], ['acquire', 0], ['finish', 0, o]])
+        out.append([O, ['start', U(0)], ['acquire', 0], ['finish', 0, 'ok'], ['base', ['adv', 100]], ['base', ['expire', 0]],
+                    ['start', ['timer', 0]], ['acquire', 1], ['finish', 1, o], ['base', ['adv', 100]], ['base', ['expire', 1]],
+                    ['start', ['timer', 1]], ['acquire', 2], ['finish', 2, 'ok']])
+        # the C02-f scenario: a retry timer fires while another sender is inside the driver, the same request is issued
+        # again meanwhile; afterwards the replaced timer and the new request get the lock in either order
+        for order in ((2, 1), (1, 2)):
+            out.append([O, ['start', U(0)], ['acquire', 0], ['finish', 0, 'ok'], ['base', ['adv', 100]], ['base', ['expire', 0]],
+                        ['start', U(5, exp=(9,))], ['acquire', 1], ['start', ['timer', 0]], ['start', U(1)],
+                        ['finish', 1, o], ['acquire', order[0] + 1], ['finish', order[0] + 1, o],
+                        ['acquire', order[1] + 1], ['finish', order[1] + 1, 'ok']])
+    # answer while the retry waits for the lock: early return of the resend path
+    out.append([O, ['start', U(0)], ['acquire', 0], ['finish', 0, 'ok'], ['base', ['adv', 100]], ['base', ['expire', 0]],
+                ['start', U(5, exp=(9,))], ['acquire', 1], ['start', ['timer', 0]], ['base', ['recv', 0x90, [7, 1]]],
+                ['finish', 1, 'ok'], ['acquire', 2]])
+    # link error while a sender is inside the driver, then the waiting retry gets the lock on a link that is gone
+    out.append([O, ['start', U(0)], ['acquire', 0], ['finish', 0, 'ok'], ['base', ['adv', 100]], ['base', ['expire', 0]],
+                ['start', U(5, exp=(9,))], ['acquire', 1], ['start', ['timer', 0]], ['base', ['linkerr']],
+                ['finish', 1, 'driver'], ['acquire', 2]])
+    # oversized packet: raises before the lock
+    out.append([O, ['start', ['user', 0, 0x90, [0] * 31, [7], 100]], ['start', U(1)], ['acquire', 1], ['finish', 1, 'ok']])
+    return [{'lock_events': e} for e in out]
+
+
+def gen_lock_scenario(rng):
+    evs = [['base', ['open', rng.random() < 0.9]]]
+    n_act, waiting, holder, rid, n_tm = 0, [], None, 0, 0
+    for _ in range(rng.randint(4, 16)):
+        x = rng.random()
+        if holder is not None and x < 0.3:
+            evs.append(['finish', holder, rng.choice(['ok', 'ok', 'ok', 'driver', 'sentcb'])])
+            holder = None
+        elif holder is None and waiting and x < 0.55:
+            i = rng.choice(waiting)
+            waiting.remove(i)
+            evs.append(['acquire', i])
+            holder = i          # (it may finish at once; a later finish is then ignored on both sides)
+            n_tm += 1
+        elif x < 0.75:
+            exp = rng.choice([[7], [7], [7, 8], [], [9]])
+            evs.append(['start', ['user', rid, 0x90, [rid] * rng.choice([1, 1, 2, 31 if rng.random() < 0.1 else 1]), exp,
+                                  rng.choice([100, 100, 50])]])
+            waiting.append(n_act)
+            n_act += 1
+            rid += 1
+        elif x < 0.9 and n_tm:
+            tid = rng.randrange(n_tm)
+            evs += [['base', ['adv', rng.choice([50, 100])]], ['base', ['expire', tid]], ['start', ['timer', tid]]]
+            waiting.append(n_act)
+            n_act += 1
+        elif x < 0.96:
+            evs.append(['base', ['recv', 0x90, rng.choice([[7], [7, 8, 1], [9], [1]])]])
+        else:
+            evs.append(['base', rng.choice([['linkerr'], ['setnr', False], ['setnr', True]])])
+    return {'lock_events': evs}
+
+
+def _shrink_lock(f):
+    case, cls, best = f['case'], f['class'], f
+    changed = True
+    while changed:
+        changed = False
+        i = 0
+        while i < len(case['lock_events']):
+            c2 = {'lock_events': case['lock_events'][:i] + case['lock_events'][i + 1:]}
+            _, g = check_lock_scenario(c2)
+            if g and g['class'] == cls:
+                case, best, changed = c2, g, True
+            else:
+                i += 1
+    return best
+
+
+def check_lock_scenario(case):
+    res = lk.run_scenario(case['lock_events'])
+    if res['leak']:
+        return res, {'class': 'send_lock_left_locked', 'case': case, 'expected': 'lock free when no send_packet is in progress',
+                     'observed': {'statuses': res.get('statuses'), 'out': res.get('out')},
+                     'detail': res['leak'] + ': every later send_packet and every retry timer blocks for ever, nothing is '
+                               'retransmitted any more'}
+    if res['blocked']:
+        return res, {'class': 'send_lock_scenario_blocked', 'case': case, 'expected': 'no thread blocks for ever',
+                     'observed': res['blocked'], 'detail': res['blocked']}
+    return res, None
+
+
 # ------------------------------------------------------------------ events -> Coq
 def _ev(e):
     k = e[0]
@@ -488,8 +611,16 @@ def gen_case(rng, ideal):
     return {'events': events, 'ideal': ideal}
 
 
+def _corpus():
+    return [json.load(open(p)) for p in sorted(glob.glob(os.path.join(runner.VERIF, 'corpus', 'C10', '*.json')))]
+
+
 def corpus_cases():
-    return [json.load(open(p))['case'] for p in sorted(glob.glob(os.path.join(runner.VERIF, 'corpus', 'C10', '*.json')))]
+    return [c['case'] for c in _corpus() if 'events' in c['case']]
+
+
+def corpus_lock_cases():
+    return [c for c in _corpus() if 'lock_events' in c['case']]
 
 
 def _unflat(vals):
@@ -561,16 +692,33 @@ def tie(ctx):
                 if len(dis) < 5:
                     dis.append({'what': 'retry machinery: transmissions/timers of model and implementation differ',
                                 'case': cases[a + k], 'expanded': ress[a + k]['expanded'], 'model': m, 'impl': e})
+    # ---- the send lock with a blocking / failing driver (real threads), against C10/Lock.v
+    lcases = [c['case'] for c in corpus_lock_cases()] + lock_fixed_scenarios()
+    for _ in range(ctx.scale(150, 3000)):
+        lcases.append(gen_lock_scenario(ctx.rng))
+    lterms, lexp = [], []
+    for c in lcases:
+        lres = lk.run_scenario(c['lock_events'], flush=False)
+        lterms.append(lock_term(c['lock_events']))
+        lexp.append(lock_impl_obs(lres) if not lres['blocked'] else [-9])
+    nld = 0
+    for bi, mv in coqrun.compare_blocks(LHEADER, lterms, lexp, tag='c10k', shard=max(8, len(lterms) // 16 + 1)):
+        nd += 1
+        nld += 1
+        if nld <= 3:
+            dis.append({'what': 'send lock: calls/holder/transmissions of model (C10/Lock.v) and implementation differ',
+                        'case': lcases[bi], 'model': mv, 'impl': lexp[bi]})
     if dis:
         try:    # diagnostic: does the implementation still behave like the tree before fix F10?
-            lv = coqrun.eval_terms(HEADER, [case_term(d['expanded'], 'Legacy') for d in dis], tag='c10l', shard=8)
-            for d, v in zip(dis, lv):
+            dd = [d for d in dis if 'expanded' in d]
+            lv = coqrun.eval_terms(HEADER, [case_term(d['expanded'], 'Legacy') for d in dd], tag='c10l', shard=8)
+            for d, v in zip(dd, lv):
                 d['agrees_with_pre_F10_model'] = (list(v) == d['impl'])
         except Exception:
             pass
         dis.append({'what': 'total disagreements', 'count': nd})
     seen, nontriv = set(), 0
-    dist = {'cases': len(cases), 'cases_differing_only_in_status_of_stale_timers': stale_only, 'ideal_timing': 0, 'racy_timing': 0, 'events': 0, 'timers': 0, 'transmissions': 0,
+    dist = {'cases': len(cases), 'send_lock_scenarios': len(lcases), 'cases_differing_only_in_status_of_stale_timers': stale_only, 'ideal_timing': 0, 'racy_timing': 0, 'events': 0, 'timers': 0, 'transmissions': 0,
             'by_kind': {}}
     for c, r in zip(cases, ress):
         h = runner.sha(c)
@@ -587,8 +735,9 @@ def tie(ctx):
         for e in r['expanded']:
             dist['by_kind'][e[0]] = dist['by_kind'].get(e[0], 0) + 1
     return {
-        'evaluations': len(cases),
-        'distinct_nontrivial': nontriv,
+        'evaluations': len(cases) + len(lcases),
+        'distinct_nontrivial': nontriv + sum(1 for c in lcases if any(e[0] == 'finish' and e[2] != 'ok' for e in c['lock_events'])
+                                             or sum(1 for e in c['lock_events'] if e[0] == 'start') >= 3),
         'rule': 'a case = list of events (send with pattern/timeout, recv, open(needs_resending), close, link error, setnr, '
                 'time steps, timer expire/run incl. runs of timers cancelled after expiring, packets whose port callback sends '
                 'follow-up requests from inside the real dispatch); non-trivial: a timer '
@@ -796,6 +945,13 @@ def callback_cases():
 
 def oracle(ctx, deep=False):
     fails, seen = check_drivers(), set()
+    n_lock = 0
+    for c in [x['case'] for x in corpus_lock_cases()] + lock_fixed_scenarios() + \
+            [gen_lock_scenario(ctx.rng) for _ in range(ctx.scale(400, 8000) * (3 if deep else 1))]:
+        n_lock += 1
+        _, f = check_lock_scenario(c)
+        if f and f['class'] not in {x['class'] for x in fails}:
+            fails.append(_shrink_lock(f))
     n_hist = 0
     for h in radio_histories(ctx.scale(3, 4)):
         n_hist += 1
@@ -811,7 +967,7 @@ def oracle(ctx, deep=False):
         if f and f['class'] not in seen:
             seen.add(f['class'])
             fails.append(_shrink(f))
-    return {'evaluations': len(cases) + n_hist, 'failures': fails,
+    return {'evaluations': len(cases) + n_hist + n_lock, 'failures': fails,
             'rule': 'property text on what the fake links saw: no packet on a closed/replaced link, every request only in '
                     'its own session, one transmission without expectation or on a reliable link, none after the answer '
                     '(longest pending pattern that is a prefix) or the end of the session, and with ideal timers '
@@ -819,6 +975,8 @@ def oracle(ctx, deep=False):
 
 
 def replay(payload, ctx):
+    if 'lock_events' in payload['case']:
+        return check_lock_scenario(payload['case'])[1]
     if 'radio_history' in payload['case']:
         return check_radio_history(payload['case']['radio_history'])
     if 'driver' in payload['case']:
